@@ -14,7 +14,7 @@ Decided:
 Not decided: that _add_conn / idx give k-1 pulses for every junction graph (runtime topology).
 """
 import ast
-from ..model import AnalysisError, walk_no_nested, norm, dotted, parent, is_const, const_value
+from ..model import AnalysisError, walk_no_nested, norm, dotted, parent, is_const, const_value, enclosing_stmt
 from ..dataflow import product_of
 from ..rules import loops_in, loop_reaches_on_all_paths
 from ..cfg import if_chain_preds
@@ -84,7 +84,9 @@ def run(ctx, ck):
                     if len(ap) != 1:
                         bad_reg.setdefault((site, 'pulses.append(p)'), (len(ap), c.stmt))
                     if len(ns) == 1:
-                        v = aeval(ns[0][2], env)
+                        # (a number that depends on the position in a loop: the first element's)
+                        v = aeval(ns[0][2], dict(env, **{x_.id: 0 for x_ in ast.walk(ns[0][2]) if isinstance(x_, ast.Name)
+                                                         and re.match(r'_k\d+$', x_.id)}))
                         if v != before:
                             bad_n.append((s0, s1, nseg, site, v, before))
                     before += c.count(env)
@@ -157,15 +159,20 @@ def run(ctx, ck):
     for g in sorted(m.all_funcs(), key=lambda x: x.qual):
         if g.module.name != 'mininec':
             continue
+        # (assigned to a local, returned by a helper, or used in place: the outermost product counts)
         for s in walk_no_nested(g.node):
-            if isinstance(s, ast.Assign) and isinstance(s.targets[0], ast.Name) and isinstance(s.value, ast.BinOp) and \
+            if isinstance(s, ast.BinOp) and isinstance(s.op, (ast.Mult, ast.Div)) and \
+               not (isinstance(parent(s), ast.BinOp) and isinstance(parent(s).op, (ast.Mult, ast.Div))) and \
                any(isinstance(x, ast.Attribute) and x.attr == 'min_seglen' and isinstance(x.ctx, ast.Load)
-                   for x in ast.walk(s.value)):
-                pr = product_of(s.value)
-                sites.append((g, s, pr))
-    ck.floor('tolerance sites', len(sites), 5)
-    coefs = {pr.coef for g, s, pr in sites}
-    for g, s, pr in sites:
+                   for x in ast.walk(s)):
+                pr = product_of(s)
+                st_ = enclosing_stmt(s)
+                name_ = norm(st_.targets[0]) if isinstance(st_, ast.Assign) and st_.value is s else \
+                    ('return' if isinstance(st_, ast.Return) and st_.value is s else 'in ' + norm(st_)[:30])
+                sites.append((g, s, pr, name_))
+    ck.floor('tolerance sites', len(sites), 2)
+    coefs = {pr.coef for g, s, pr, name_ in sites}
+    for g, s, pr, name_ in sites:
         nn, dd = pr.texts()
         ok = abs(pr.coef - 1e-3) < 1e-15 and len(nn) == 1 and nn[0].endswith('min_seglen') and not dd
         # the shortest segment of the whole structure (Mininec / Geo_Container), not of one object
@@ -176,11 +183,11 @@ def run(ctx, ck):
             cls = classes_of(rt) if rt is not None else []
             glob = bool(cls) and set(cls) <= {'Mininec', 'Geo_Container'}
             if not glob:
-                ck.ob('R-LIT.tolerance', '%s|%s|global' % (g.qual, norm(s.targets[0])), False, g.loc(s),
+                ck.ob('R-LIT.tolerance', '%s|%s|global' % (g.qual, name_), False, g.loc(s),
                       'tolerance is taken from %s (an attribute of %s): the matching tolerance must be 1/1000 of '
                       'the shortest segment of the whole structure' % (norm(fac), cls or 'an unresolved receiver'))
                 continue
-        ck.ob('R-LIT.tolerance', '%s|%s' % (g.qual, norm(s.targets[0])), ok, g.loc(s),
+        ck.ob('R-LIT.tolerance', '%s|%s' % (g.qual, name_), ok, g.loc(s),
               'tolerance = %r * %s' % (pr.coef, nn))
     ck.ob('R-LIT.tolerance', 'all-equal', len(coefs) == 1, f.loc(), 'tolerance literals used: %s' % sorted(coefs))
     # matching comparison uses the tolerance with <=
